@@ -232,12 +232,22 @@ func parseContractFile(path, pkgPath string) (*ContractFile, error) {
 		case "panics":
 			// panics [ExcType] when e
 			exc := ""
+			kind := "panics"
 			i := strings.Index(rest, "when ")
+			if j := strings.Index(rest, "at_site "); j >= 0 && (i < 0 || j < i) {
+				// evaluated in the state at the panic site (may mention ghosts written before it);
+				// gives permission to panic, no obligation to
+				kind = "panics_site"
+				i = j + 3
+			}
 			if i < 0 {
 				return nil, fmt.Errorf("%s:%d: panics [Type] when e", path, ln+1)
 			}
-			exc = strings.TrimSpace(rest[:i])
-			last = &Clause{Kind: "panics", Exc: exc, Text: strings.TrimSpace(rest[i+5:]), Line: ln + 1}
+			exc = strings.TrimSpace(strings.TrimSuffix(strings.TrimSpace(rest[:i]), "at_"))
+			if kind == "panics_site" {
+				exc = strings.TrimSpace(rest[:strings.Index(rest, "at_site ")])
+			}
+			last = &Clause{Kind: kind, Exc: exc, Text: strings.TrimSpace(rest[i+5:]), Line: ln + 1}
 			cur.Clauses = append(cur.Clauses, last)
 		default:
 			tag := ""
@@ -266,6 +276,10 @@ func parseContractFile(path, pkgPath string) (*ContractFile, error) {
 					continue
 				}
 				for _, part := range splitTop(cl.Text, ',') {
+					if pt := strings.TrimSpace(part); strings.HasSuffix(pt, ".*") {
+						cl.Exprs = append(cl.Exprs, &Expr{Op: "wild", Name: strings.TrimSuffix(pt, ".*")})
+						continue
+					}
 					e, err := parseSpec(strings.TrimSpace(part))
 					if err != nil {
 						return nil, fmt.Errorf("%s:%d: %v in %q", path, cl.Line, err, part)
